@@ -36,6 +36,20 @@ def rule_entry(facts):
             continue
         b = bs[0]
         n_entries += 1
+        # pieces of the entry point extracted into private helpers (`take_primary_error(&mut inp)`, `finish_parse(res, alt, errs)`) are
+        # put back in place at MIR level, so the clauses below read the same function whichever way it is split up; the reviewed
+        # primitives (InputOwn / InputRef / ParseResult methods) stay calls
+        import nf as _nf
+        _N = _nf.Normalizer(facts)
+
+        def _resolve(fn, _N=_N):
+            cb = _N.local_body(_nf._callee_id(fn))
+            if cb is None or cb.get("public") or cb.get("impl_trait") or cb.get("in_trait"):
+                return None
+            if re.match(r"^(input::|ParseResult::|private::|extra::)", cb["qname"]) or cb["qname"].startswith(("Parser::", "IterParser::")):
+                return None
+            return cb
+        b = mirq.inline_private_helpers(facts, b, _resolve)
         pv = Prov(b)
         # (a) the grammar is run exactly once, as ThenIgnore<&Self, End<I, E>, (), E>, in the right mode
         gos = [(i, bl, t, f) for i, bl, t, f in calls(b) if f is not None and f.get("trait") in ("Parser", "private::Mode")
@@ -246,8 +260,27 @@ def rule_entry(facts):
     newb = facts.one("ParseResult::new")
     ok = not newb.get("public")
     callers = sorted({b["qname"] for b in facts.bodies for _, _, _, f in calls(b) if f is not None and f["path"].startswith("ParseResult") and f["name"] == "new"})
-    r.ob(ok and set(callers) <= {"Parser::parse_with_state", "Parser::check_with_state"})
-    if not (ok and set(callers) <= {"Parser::parse_with_state", "Parser::check_with_state"}):
+    # a private helper that only the entry points call (an extracted tail of theirs) is part of the entry points
+    allowed = {"Parser::parse_with_state", "Parser::check_with_state"}
+    who_calls = {}
+    for b_ in facts.bodies:
+        src = re.sub(r"(::\{closure#\d+\})+$", "", b_["qname"])
+        for _, _, _, f in calls(b_):
+            if f is not None and f.get("krate") == "chumsky":
+                who_calls.setdefault(f["name"], set()).add(src)
+    grew = True
+    while grew:
+        grew = False
+        for c in callers:
+            if c in allowed:
+                continue
+            cb = facts.by_qname.get(c) or []
+            if len(cb) == 1 and not cb[0].get("public") and not cb[0].get("impl_trait") and who_calls.get(cb[0]["name"]) \
+                    and who_calls[cb[0]["name"]] <= allowed:
+                allowed.add(c)
+                grew = True
+    r.ob(ok and set(callers) <= allowed)
+    if not (ok and set(callers) <= allowed):
         r.violations.append(V("ENTRY", "ParseResult::new", "constructor reachable elsewhere",
                               "ParseResult::new must be crate-private and called only by the two entry points; callers: %s public=%s" % (callers, newb.get("public"))))
     # ---- lazy(): the only constructor that discards a suffix
